@@ -319,7 +319,12 @@ def fam_reference_mixed_dt(ctx, rng):
     dts = [float(x) for x in rng.choice([0.004, 0.005, 0.01, 0.0125, 0.02, 1 / 75], k, replace=False)]
     if rng.random() < 0.5:
         dts = dts + [dts[0]]
-    L = [int(rng.choice([300, 1000, 2048, 5000])) for _ in dts]
+    long_list = rng.random() < 0.35
+    if long_list:
+        # many recordings of few time steps, interleaved: several recordings share every time step
+        base = dts[:int(rng.integers(2, 4))]
+        dts = [base[int(i)] for i in rng.integers(0, len(base), int(rng.integers(5, 11)))]
+    L = [int(rng.choice([300, 1000, 2048] if long_list else [300, 1000, 2048, 5000])) for _ in dts]
     variant = str(rng.choice(["pinned-n", "pinned-n", "default-n-long-record-later", "n-none"]))
     if variant == "default-n-long-record-later":
         L[0] = 300
